@@ -20,7 +20,7 @@ func init() {
 
 func runC09(c *core.Ctx) {
 	runFixtures(c, "valid", "drop", "fold")
-	c.Explain("Structural clauses of C09 decided from source on linux, windows and darwin builds of package hackpadfs/os: (R09.1) every call to a path-taking function of the standard os package receives, as each path operand, the first result of the name→OS-path mapping (rootedPath/toOSPath), at a point dominated by that call's nil-error edge — no raw name reaches the kernel; (R09.2) the mapping validates before it joins and joins path.Join(\"/\", root, name) in that order, so the result is root-prefixed; (R09.3) every non-error return of the reverse mapping returns the constant \".\" or a value tested by ValidPath on the way; (R09.4) the root-prefix test of the reverse mapping respects element boundaries (root+\"/\" or equality); (R09.5) every error produced by a standard os function or *os.File method leaves package os only through the translator that rewrites OS paths into FS-relative names; (R09.6) the exported reverse mapping refuses non-absolute paths before converting; (R09.7) no strings.Replace/ReplaceAll in package os deletes (replaces by the empty string) a non-constant pattern — the root's OS path is taken off a reported path with TrimPrefix only, so a name that contains the root's text again further down ('backup/data/x' under root 'data') is reported intact; (R09.8) a method of os.FS that builds a new os.FS (Sub) stores into every string field of the new value something derived from the receiver's same field — a volume name left at the constructor's default moves the view to another volume. (R09.9) no prefix cut off an OS path is admitted by a case-insensitive comparison; (R09.10) os.FS.Sub never stores the root \".\". (R09.11) relPath never answers a rooted name; (R09.12) = R07.1 under C09. NOT claimed: ToOSPath∘FromOSPath = id (string arithmetic), volume handling on real Windows paths beyond these shapes.")
+	c.Explain("Structural clauses of C09 decided from source on linux, windows and darwin builds of package hackpadfs/os: (R09.1) every call to a path-taking function of the standard os package receives, as each path operand, the first result of the name→OS-path mapping (rootedPath/toOSPath), at a point dominated by that call's nil-error edge — no raw name reaches the kernel; (R09.2) the mapping validates before it joins and joins path.Join(\"/\", root, name) in that order, so the result is root-prefixed; (R09.3) every non-error return of the reverse mapping returns the constant \".\" or a value tested by ValidPath on the way; (R09.4) the root-prefix test of the reverse mapping respects element boundaries (root+\"/\" or equality); (R09.5) every error produced by a standard os function or *os.File method leaves package os only through the translator that rewrites OS paths into FS-relative names; (R09.6) the exported reverse mapping refuses non-absolute paths before converting; (R09.7) no strings.Replace/ReplaceAll in package os deletes (replaces by the empty string) a non-constant pattern — the root's OS path is taken off a reported path with TrimPrefix only, so a name that contains the root's text again further down ('backup/data/x' under root 'data') is reported intact; (R09.8) a method of os.FS that builds a new os.FS (Sub) stores into every string field of the new value something derived from the receiver's same field — a volume name left at the constructor's default moves the view to another volume. (R09.9) no prefix cut off an OS path is admitted by a case-insensitive comparison; (R09.10) os.FS.Sub never stores the root \".\". (R09.11) relPath never answers a rooted name; (R09.12) = R07.1 under C09. (R09.13) separator parameters are used and no literal backslash is replaced; (R09.14) every Path/Old/New of a rebuilt os error is last stored from relPath. NOT claimed: ToOSPath∘FromOSPath = id (string arithmetic), volume handling on real Windows paths beyond these shapes.")
 	c.Assume("A2: standard os/path/filepath functions behave as documented")
 	c.RuleDoc("R09.1", "only mapped paths reach standard os calls, on the mapping's success edge")
 	c.RuleDoc("R09.2", "mapping = validate, then path.Join(\"/\", root, name)")
